@@ -53,6 +53,9 @@ pub const STRATEGIES: [&str; 4] = ["simple", "basic", "append_data", "append_dat
 pub struct Step {
     pub remove: Vec<u8>,
     pub ghost: Option<Shape>,
+    /// the ghost is removed after the first addition of the step instead of at once (so that a
+    /// datum with a higher id is already pending when it goes away)
+    pub ghost_late: bool,
     pub add: Vec<Shape>,
     pub strat: u8,
 }
@@ -62,6 +65,7 @@ impl Step {
         json!({
             "remove_positions": self.remove,
             "ghost": self.ghost.map(|g| g.to_json()),
+            "ghost_removed_after_first_addition": self.ghost_late,
             "add": self.add.iter().map(Shape::to_json).collect::<Vec<_>>(),
             "close_with": STRATEGIES[self.strat as usize],
         })
@@ -77,6 +81,7 @@ impl Step {
             } else {
                 Some(Shape::from_json(&v["ghost"]))
             },
+            ghost_late: v["ghost_removed_after_first_addition"].as_bool().unwrap_or(false),
             add: v["add"]
                 .as_array()
                 .map(|a| a.iter().map(Shape::from_json).collect())
@@ -93,7 +98,7 @@ impl Step {
             s.push_str(&format!("-@{} ", r));
         }
         if let Some(g) = self.ghost {
-            s.push_str(&format!("ghost({},{}) ", g.size, g.align));
+            s.push_str(&format!("ghost{}({},{}) ", if self.ghost_late { "-late" } else { "" }, g.size, g.align));
         }
         for a in &self.add {
             s.push_str(&format!(
@@ -222,19 +227,22 @@ pub fn execute(history: &[Step], naming: Naming) -> Executed {
             removed.push(id);
             live_names.retain(|(i, _)| *i != id);
         }
+        let mut pending_ghost: Option<DatumId> = None;
         if let Some(g) = step.ghost {
             counter += 1;
             match add_shape(&mut ex.builder, format!("ghost{}", counter), g) {
                 Ok(id) => {
-                    if let Err(e) = ex.builder.remove_datum(id) {
-                        ex.failure =
-                            Some(format!("step {}: removal of pending datum rejected: {}", si, e));
-                        return ex;
-                    }
                     ex.ghosts.push(id);
+                    pending_ghost = Some(id);
                 }
                 Err(e) => {
                     ex.failure = Some(format!("step {}: valid addition rejected: {}", si, e));
+                    return ex;
+                }
+            }
+            if !step.ghost_late || step.add.is_empty() {
+                if let Err(e) = ex.builder.remove_datum(pending_ghost.take().unwrap()) {
+                    ex.failure = Some(format!("step {}: removal of pending datum rejected: {}", si, e));
                     return ex;
                 }
             }
@@ -264,6 +272,12 @@ pub fn execute(history: &[Step], naming: Naming) -> Executed {
                 }
                 Err(e) => {
                     ex.failure = Some(format!("step {}: valid addition rejected: {}", si, e));
+                    return ex;
+                }
+            }
+            if let Some(g) = pending_ghost.take() {
+                if let Err(e) = ex.builder.remove_datum(g) {
+                    ex.failure = Some(format!("step {}: removal of pending datum rejected: {}", si, e));
                     return ex;
                 }
             }
